@@ -373,6 +373,19 @@ func emitNonrevAttacks(g *Rng, kp *KeyPair, ir *issuerRev, cred *gabi.Credential
 		setAt(t2, lp, I(new(big.Int).Add(leafInt(t2, lp), bi(1))))
 		emit(nrOp(kp, t2, ctx, nonce, "nr-alter1", "reject"))
 	}
+	// the prover-chosen group elements moved by multiples of the modulus: the same residue, another
+	// number - it is the number as received that the challenge binds
+	for _, name := range []string{"C_r", "C_u"} {
+		for _, k := range []*big.Int{bi(1), bi(2), new(big.Int).Lsh(bi(1), 40)} {
+			t2 := cloneTree(tree).(T)
+			nr := t2["nonrev_proof"].(T)
+			if nr[name] == nil {
+				continue
+			}
+			nr[name] = I(new(big.Int).Add(leafInt(t2, []any{"nonrev_proof", name}), new(big.Int).Mul(k, kp.pk.N)))
+			emit(nrOp(kp, t2, ctx, nonce, "nr-alter-plus-multiple-of-N", "reject").with("fkey", "C11/nr-alter-plus-multiple-of-N"))
+		}
+	}
 	// signed accumulator replaced by another genuinely signed one (older / newer index)
 	for _, delta := range []int{0, 1} {
 		a := *ir.acc
